@@ -3,7 +3,7 @@
 From Coq Require Import ZArith List Bool Reals Lra Lia Permutation.
 From Coquelicot Require Import Coquelicot.
 From Flocq Require Import Core.Raux.
-From CV Require Import Base.Num Base.RNum C18.ValueModel C18.ValueProofs C18.GradProofs C18.ExtraProofs C18.Round3Proofs C18.SumProofs.
+From CV Require Import Base.Num Base.RNum C18.ValueModel C18.ValueProofs C18.GradProofs C18.ExtraProofs C18.Round3Proofs C18.SumProofs C18.ConsumerProofs.
 Import ListNotations.
 Local Open Scope R_scope.
 
@@ -515,3 +515,75 @@ Proof.
     apply Forall_cons; [apply Hk; cbn; auto; unfold Rabs; destruct (Rcase_abs (-1)); lra|].
     apply Forall_cons; [apply Hk; cbn; auto; unfold Rabs; destruct (Rcase_abs (-1)); lra|]. apply Forall_nil.
 Qed.
+
+(* =====================================================================================================
+   Round 4: the consumers of the metric (harmonic restraint, harmonic walls, finite-difference velocity) see equivalent
+   values as equal
+   ===================================================================================================== *)
+(* harmonic restraint (energy 0.5 k/w^2 dist2, force -0.5 k/w^2 dist2_lgrad, through the variable's own functions): for EVERY kind
+   of variable wrapping value and centre changes nothing; for a periodic variable whole periods of value and centre change
+   nothing; for an orientation the sign of the value or of the centre changes nothing *)
+Theorem C18_restraint_sees_equivalent_values : forall (k w : R),
+  (forall kind x c, comp_ok kind ->
+     hr_energy Rops PI k w kind (comp_wrap Rops kind x) (comp_wrap Rops kind c) = hr_energy Rops PI k w kind x c /\
+     hr_force Rops PI k w kind (comp_wrap Rops kind x) (comp_wrap Rops kind c) = hr_force Rops PI k w kind x c) /\
+  (forall P c0 x c (n m : Z), 0 < P ->
+     hr_energy Rops PI k w (KPeriodic P c0) (VS (x + IZR n * P)) (VS (c + IZR m * P)) = hr_energy Rops PI k w (KPeriodic P c0) (VS x) (VS c) /\
+     hr_force Rops PI k w (KPeriodic P c0) (VS (x + IZR n * P)) (VS (c + IZR m * P)) = hr_force Rops PI k w (KPeriodic P c0) (VS x) (VS c)) /\
+  (forall q c,
+     hr_energy Rops PI k w KQuat (VQ (qneg Rops q)) (VQ c) = hr_energy Rops PI k w KQuat (VQ q) (VQ c) /\
+     hr_energy Rops PI k w KQuat (VQ q) (VQ (qneg Rops c)) = hr_energy Rops PI k w KQuat (VQ q) (VQ c)).
+Proof.
+  intros k w. split; [intros kind x c Hk; apply hr_wrap; exact Hk|].
+  split; [intros P c0 x c n m HP; apply hr_periodic_images; exact HP | intros q c; apply hr_quaternion_sign].
+Qed.
+Print Assumptions C18_restraint_sees_equivalent_values.
+(* with a positive force constant the restraint energy vanishes exactly at the values equivalent to the centre *)
+Theorem C18_restraint_zero_iff_equivalent : forall k w : R, 0 < k -> w <> 0 ->
+  (forall P c0 x c, 0 < P ->
+     (hr_energy Rops PI k w (KPeriodic P c0) (VS x) (VS c) = Some 0 <-> exists n : Z, x - c = IZR n * P)) /\
+  (forall q c, q_unit q -> q_unit c ->
+     (hr_energy Rops PI k w KQuat (VQ q) (VQ c) = Some 0 <-> q = c \/ q = qneg Rops c)) /\
+  (forall a b, is_unit a -> is_unit b -> (hr_energy Rops PI k w KUnit (V3 a) (V3 b) = Some 0 <-> a = b)).
+Proof. exact hr_zero_iff. Qed.
+Print Assumptions C18_restraint_zero_iff_equivalent.
+(* the restraint force is minus the derivative of the restraint energy (scalar; periodic off the half-period cut) *)
+Theorem C18_restraint_force_is_minus_energy_derivative : forall k w : R,
+  (forall P c0 x c,
+     hr_energy Rops PI k w (KPeriodic P c0) (VS x) (VS c) = Some (1 / 2 * k / (w * w) * per_dist2 Rops P x c) /\
+     hr_force Rops PI k w (KPeriodic P c0) (VS x) (VS c) = Some (VS (- (1 / 2) * k / (w * w) * per_grad Rops P x c)) /\
+     hr_energy Rops PI k w KScalar (VS x) (VS c) = Some (1 / 2 * k / (w * w) * sc_dist2 Rops x c) /\
+     hr_force Rops PI k w KScalar (VS x) (VS c) = Some (VS (- (1 / 2) * k / (w * w) * sc_grad Rops x c))) /\
+  (forall x c, is_derive (fun t => 1 / 2 * k / (w * w) * sc_dist2 Rops t c) x (- (- (1 / 2) * k / (w * w) * sc_grad Rops x c))) /\
+  (forall P x c, 0 < P -> pdiff Rops P (x - c) <> - P / 2 ->
+     is_derive (fun t => 1 / 2 * k / (w * w) * per_dist2 Rops P t c) x (- (- (1 / 2) * k / (w * w) * per_grad Rops P x c))).
+Proof.
+  intros k w. split; [intros P c0 x c; apply hr_model_unfold|]. exact (hr_force_is_minus_derivative k w).
+Qed.
+Print Assumptions C18_restraint_force_is_minus_energy_derivative.
+(* a restraint centred at 179 degrees pulls a value at -179 degrees by 2 degrees (energy 2, force -2 for k = width = 1) *)
+Example C18_example_restraint_across_boundary :
+  hr_energy Rops PI 1 1 (KPeriodic 360 0) (VS (-179)) (VS 179) = Some 2 /\
+  hr_force Rops PI 1 1 (KPeriodic 360 0) (VS (-179)) (VS 179) = Some (VS (-2)).
+Proof. exact hr_across_boundary. Qed.
+(* finite-difference velocity of a periodic variable: the closest-image displacement over the time step *)
+Theorem C18_velocity_is_closest_image_displacement : forall dt P c0 xo xn : R, 0 < dt -> 0 < P ->
+  fd_velocity Rops PI dt (KPeriodic P c0) (VS xo) (VS xn) = Some (VS (pdiff Rops P (xn - xo) / dt)) /\
+  (forall v, fd_velocity Rops PI dt (KPeriodic P c0) (VS xo) (VS xn) = Some (VS v) ->
+     - P / 2 <= v * dt < P / 2 /\ exists n : Z, v * dt = xn - xo - IZR n * P).
+Proof.
+  intros dt P c0 xo xn Hdt HP. split; [apply fd_velocity_periodic; exact Hdt | intros v; apply fd_velocity_bound; assumption].
+Qed.
+Print Assumptions C18_velocity_is_closest_image_displacement.
+(* harmonic walls on a periodic variable: invariant under whole periods of the value and of either wall; the displacement acted on
+   is zero or the closest-image displacement from the nearer wall (negative only from the lower, positive only from the upper) *)
+Theorem C18_walls_on_periodic_variable : forall (k w lk uk P c0 lo up x : R) (n m l : Z), 0 < P ->
+  hw_energy Rops k w lk uk (KPeriodic P c0) (lo + IZR m * P) (up + IZR l * P) (x + IZR n * P) = hw_energy Rops k w lk uk (KPeriodic P c0) lo up x /\
+  hw_force Rops k w lk uk (KPeriodic P c0) (lo + IZR m * P) (up + IZR l * P) (x + IZR n * P) = hw_force Rops k w lk uk (KPeriodic P c0) lo up x /\
+  (let d := hw_distance Rops (KPeriodic P c0) lo up x in
+   (d = 0 \/ (d = pdiff Rops P (x - lo) /\ d < 0) \/ (d = pdiff Rops P (x - up) /\ 0 < d)) /\ - P / 2 <= d < P / 2).
+Proof.
+  intros k w lk uk P c0 lo up x n m l HP. destruct (hw_energy_period k w lk uk P c0 lo up x n m l HP) as [E1 E2].
+  split; [exact E1|]. split; [exact E2|]. apply hw_distance_cases; exact HP.
+Qed.
+Print Assumptions C18_walls_on_periodic_variable.
